@@ -180,7 +180,7 @@ def apply_step(soup, root, op, case, k, flags):
     nodes = list(M.walk(root))
     conts = [(root, ())] + [(n, p) for n, owner, lst, i, p in nodes if getattr(n, 'body', None) is not None and
                             (n.kind != 'cmd' or n.name == 'item')]
-    code = code % 13
+    code = code % 14
 
     def pick_node(pred=lambda n, owner, lst, i, p: True):
         cands = [t for t in nodes if pred(*t)]
@@ -253,6 +253,31 @@ def apply_step(soup, root, op, case, k, flags):
         if any(getattr(x, 'inserted', False) for x in mlist if x not in model):
             flags.add('edit-in-or-next-to-inserted-material')
         return desc
+    if code == 13:      # move: insert a copy of an existing node elsewhere, then delete the original (documented idiom)
+        t = pick_node()
+        if t is None:
+            return None
+        n, owner, lst, i, p = t
+        # another container (the same object twice in ONE list cannot be told apart by identity), not inside the node
+        dests = [(o, dp) for o, dp in conts if dp[:len(p)] != p and o.body is not lst]
+        if not dests:
+            return None
+        downer, dp = dests[b % len(dests)]
+        mlist = downer.body
+        slots = [0, len(mlist)] + [j for j, it in enumerate(mlist) if M.is_node(it)]
+        mi = slots[c % len(slots)]
+        tn = resolve(soup, p)
+        cn = resolve(soup, dp)
+        ri = 0 if mi == 0 else real_index(cn, mlist, mi)
+        if ri is None:
+            return None
+        note_target(n, lst)
+        cn.insert(ri, tn.copy())
+        tn.delete()
+        mlist.insert(mi, n)
+        del lst[i]
+        flags.add('move-by-copy-insert-delete')
+        return 'move %r -> %r @%d' % (p, dp, mi)
     if code == 5:       # rename
         t = pick_node(lambda n, owner, lst, i, p: n.kind in ('cmd', 'env') and n.name != 'item')
         if t is None:
@@ -396,7 +421,7 @@ def tiny_docs():
 
 
 def small_ops():
-    return [(code, a, b, 0) for code in range(13) for a in range(3) for b in range(2)]
+    return [(code, a, b, 0) for code in range(14) for a in range(3) for b in range(2)]
 
 
 def plan(ctx):
@@ -444,7 +469,7 @@ def shard_histories(ctx, shard):
     from hypothesis import strategies as st
     res = H.Result()
     prof = ['tinytwin', 'smalltwin', 'tinytwin', 'smalllists'][idx % 4]
-    op = st.tuples(st.integers(0, 12), st.integers(0, 40), st.integers(0, 40), st.integers(0, 40))
+    op = st.tuples(st.integers(0, 13), st.integers(0, 40), st.integers(0, 40), st.integers(0, 40))
     strat = st.tuples(G.wfdoc(prof), st.lists(op, min_size=2, max_size=maxlen))
 
     def prop(c):
